@@ -10,3 +10,7 @@ claim("C13",
   "Exhaustive enumeration on the real ShapeTrait::contains (Rect, Polygon, Path, and through the Shape enum): every rectangle on a 5x5 grid, every simple polygon given by any sequence of 3..5 (thorough: also 6 on 4x4) distinct vertices on a 4x4 (thorough 5x5) grid - hence every vertex order, orientation, start vertex and collinear-vertex placement - each also with one repeated vertex, and every Manhattan path of 1..3 segments with width 0..4, each queried at every point of the surrounding grid and judged by exact integer geometry (boundary by zero cross product, winding number with half-open rule; the reference is cross-checked against an independent crossing-number implementation at start-up). Thorough adds a labelled random supplement of larger general / rectilinear / 45-degree polygons. Decides the property for all shapes of the grid alphabet; larger shapes are only sampled.",
   TB + " Paths: only the two point sets the statement fixes are judged (end caps / corner squares are don't-care).",
   "explicit-state exhaustive enumeration of all small-grid shapes x all grid query points on the real code vs exact integer geometry")
+
+claim("C12",
+  "Exhaustive enumeration on the real Transform::{from_instance, translate, rotate, reflect_vert, cascade}, Point::transform and Layout::flatten: all right-angle orientations (with the None / Some(0) spellings) x a witness offset alphabet incl. the i32 extremes x every point of a 9x9 grid, judged three ways (from_instance == composition of the library's elementary transforms == exact integer signed-permutation map); every chain of depth 1..3 (thorough 4) over 8 orientations x 3 offsets per level both as cascaded transforms and through flatten() of a really nested layout holding a rectangle, an asymmetric polygon and a path (exact images shape by shape, mirror orientation iff odd number of reflections); every integer degree 0..359 x reflect within half a unit of a double-precision reference. Decides the property on that alphabet; non-integer angles are not covered.",
+  TB, "explicit-state exhaustive enumeration of orientation words x offsets x grid points on the real code vs exact integer affine maps")
